@@ -282,45 +282,50 @@ func namesTables(c *Ctx, required []string, exact bool, withDefaults bool) {
 		steps []addStep
 		keep  []int // indices of steps whose written name must survive (no collision touches them)
 		specs []importSpec // import specs of the source package's files (none unless given)
+		bare  []string     // type names some type text of the method spells without a qualifier: no variable may bear them
 	}{
-		{"two unnamed parameters of one type", []addStep{{"", strT, ""}, {"", strT, ""}}, nil, nil},
-		{"three unnamed parameters of one type", []addStep{{"", strT, ""}, {"", strT, ""}, {"", strT, ""}}, nil, nil},
-		{"an unnamed result next to an unnamed parameter of the same type", []addStep{{"", strT, ""}, {"", strT, "Out"}}, nil, nil},
-		{"two unnamed results of one type", []addStep{{"", strT, "Out"}, {"", strT, "Out"}}, nil, nil},
-		{"a parameter written s next to an unnamed string", []addStep{{"s", intF, ""}, {"", strT, ""}}, nil, nil},
-		{"an unnamed string next to a parameter written s", []addStep{{"", strT, ""}, {"s", intF, ""}}, nil, nil},
-		{"parameters written s1 and s2 next to two unnamed strings", []addStep{{"s1", intF, ""}, {"s2", intF, ""}, {"", strT, ""}, {"", strT, ""}}, nil, nil},
-		{"a parameter named like a package imported later", []addStep{{"ka", intF, ""}, {"x", leaf("ka"), ""}}, []int{1}, nil},
-		{"a parameter named like a package imported earlier", []addStep{{"x", leaf("ka"), ""}, {"ka", intF, ""}}, []int{0}, nil},
-		{"a parameter named like the package of its own type", []addStep{{"ka", leaf("ka"), ""}}, nil, nil},
-		{"two unnamed values of a type named Float3 (numbering gives float31, float32)", []addStep{{"", func() ktype { return kNamedIn(kpath("kf"), "kf", "Float3", nil, nil) }, ""}, {"", func() ktype { return kNamedIn(kpath("kf"), "kf", "Float3", nil, nil) }, ""}}, nil, nil},
-		{"a parameter named like a package, then an unnamed value whose default name is that package's name too", []addStep{{"kt", intF, ""}, {"", func() ktype { return kNamedIn(kpath("kt"), "kt", "Kt", nil, nil) }, ""}}, nil, nil},
-		{"an unnamed value whose default name is its package's name, then a parameter named like that package", []addStep{{"", func() ktype { return kNamedIn(kpath("kt"), "kt", "Kt", nil, nil) }, ""}, {"kt", intF, ""}}, nil, nil},
-		{"a result named like a package imported by a parameter", []addStep{{"x", leaf("ka"), ""}, {"ka", intF, "Out"}}, []int{0}, nil},
-		{"distinct written names", []addStep{{"a", intF, ""}, {"b", strT, ""}, {"c", leaf("ka"), ""}}, []int{0, 1, 2}, nil},
-		{"a parameter named like a package that only a result's type imports", []addStep{{"ka", intF, ""}, {"", leaf("ka"), "Out"}}, nil, nil},
-		{"a package qualified s1 and two unnamed strings", []addStep{{"x", leaf("s1"), ""}, {"", strT, ""}, {"", strT, ""}}, []int{0}, nil},
-		{"a package qualified s2 and three unnamed strings", []addStep{{"x", leaf("s2"), ""}, {"", strT, ""}, {"", strT, ""}, {"", strT, ""}}, []int{0}, nil},
+		{"two unnamed parameters of one type", []addStep{{"", strT, ""}, {"", strT, ""}}, nil, nil, nil},
+		{"three unnamed parameters of one type", []addStep{{"", strT, ""}, {"", strT, ""}, {"", strT, ""}}, nil, nil, nil},
+		{"an unnamed result next to an unnamed parameter of the same type", []addStep{{"", strT, ""}, {"", strT, "Out"}}, nil, nil, nil},
+		{"two unnamed results of one type", []addStep{{"", strT, "Out"}, {"", strT, "Out"}}, nil, nil, nil},
+		{"a parameter written s next to an unnamed string", []addStep{{"s", intF, ""}, {"", strT, ""}}, nil, nil, nil},
+		{"an unnamed string next to a parameter written s", []addStep{{"", strT, ""}, {"s", intF, ""}}, nil, nil, nil},
+		{"parameters written s1 and s2 next to two unnamed strings", []addStep{{"s1", intF, ""}, {"s2", intF, ""}, {"", strT, ""}, {"", strT, ""}}, nil, nil, nil},
+		{"a parameter named like a package imported later", []addStep{{"ka", intF, ""}, {"x", leaf("ka"), ""}}, []int{1}, nil, nil},
+		{"a parameter named like a package imported earlier", []addStep{{"x", leaf("ka"), ""}, {"ka", intF, ""}}, []int{0}, nil, nil},
+		{"a parameter named like the package of its own type", []addStep{{"ka", leaf("ka"), ""}}, nil, nil, nil},
+		{"two unnamed values of a type named Float3 (numbering gives float31, float32)", []addStep{{"", func() ktype { return kNamedIn(kpath("kf"), "kf", "Float3", nil, nil) }, ""}, {"", func() ktype { return kNamedIn(kpath("kf"), "kf", "Float3", nil, nil) }, ""}}, nil, nil, nil},
+		{"a parameter named like a package, then an unnamed value whose default name is that package's name too", []addStep{{"kt", intF, ""}, {"", func() ktype { return kNamedIn(kpath("kt"), "kt", "Kt", nil, nil) }, ""}}, nil, nil, nil},
+		{"an unnamed value whose default name is its package's name, then a parameter named like that package", []addStep{{"", func() ktype { return kNamedIn(kpath("kt"), "kt", "Kt", nil, nil) }, ""}, {"kt", intF, ""}}, nil, nil, nil},
+		{"a result named like a package imported by a parameter", []addStep{{"x", leaf("ka"), ""}, {"ka", intF, "Out"}}, []int{0}, nil, nil},
+		{"distinct written names", []addStep{{"a", intF, ""}, {"b", strT, ""}, {"c", leaf("ka"), ""}}, []int{0, 1, 2}, nil, nil},
+		{"a parameter named like a package that only a result's type imports", []addStep{{"ka", intF, ""}, {"", leaf("ka"), "Out"}}, nil, nil, nil},
+		{"a package qualified s1 and two unnamed strings", []addStep{{"x", leaf("s1"), ""}, {"", strT, ""}, {"", strT, ""}}, []int{0}, nil, nil},
+		{"a package qualified s2 and three unnamed strings", []addStep{{"x", leaf("s2"), ""}, {"", strT, ""}, {"", strT, ""}, {"", strT, ""}}, []int{0}, nil, nil},
 		{"a parameter named like a package met after the mock's own package in one type", []addStep{{"zz", intF, ""}, {"m", func() ktype {
 			own := kNamedIn(rwSrcPath, rwSrcName, "Own", nil, nil)
 			return &interp.Opaque{Kind: "types.Type", ID: "mapOwn", GoType: "*go/types.Map", Methods: mmap{"Key": tmeth(own), "Elem": tmeth(kLeaf("zz"))}}
-		}, ""}}, []int{1}, nil},
+		}, ""}}, []int{1}, nil, nil},
 		{"a parameter named like the second of two packages one type imports", []addStep{{"kb", intF, ""}, {"m", func() ktype {
 			return &interp.Opaque{Kind: "types.Type", ID: "map2p", GoType: "*go/types.Map", Methods: mmap{"Key": tmeth(kLeaf("ka")), "Elem": tmeth(kLeaf("kb"))}}
-		}, ""}}, []int{1}, nil},
+		}, ""}}, []int{1}, nil, nil},
 		// names are compared exactly: what differs in case collides with nothing
-		{"written names that differ only in case", []addStep{{"userID", intF, ""}, {"userId", strT, ""}}, []int{0, 1}, nil},
-		{"a parameter written in upper case next to a package of that name in lower case", []addStep{{"KA", intF, ""}, {"x", leaf("ka"), ""}}, []int{0, 1}, nil},
+		{"written names that differ only in case", []addStep{{"userID", intF, ""}, {"userId", strT, ""}}, []int{0, 1}, nil, nil},
+		{"a parameter written in upper case next to a package of that name in lower case", []addStep{{"KA", intF, ""}, {"x", leaf("ka"), ""}}, []int{0, 1}, nil, nil},
 		// once two packages of one name have been given other qualifiers, their bare name is free again
 		{"a parameter written like the bare name two re-qualified packages share", []addStep{
 			{"x", func() ktype { return kNamedIn("example.test/alpha/kc", "kc", "T1", nil, nil) }, ""},
 			{"y", func() ktype { return kNamedIn("example.test/beta/kc", "kc", "T2", nil, nil) }, ""},
-			{"kc", intF, ""}}, []int{0, 1, 2}, nil},
+			{"kc", intF, ""}}, []int{0, 1, 2}, nil, nil},
 		// what a source file calls a package the mock never imports is no qualifier of the generated file
 		{"a parameter written like the name a source file gives to a package no signature mentions", []addStep{{"kq", intF, ""}, {"x", leaf("ka"), ""}}, []int{0, 1},
-			[]importSpec{{name: "kq", path: "example.test/unused/kq0"}, {name: "kr", path: "example.test/unused/kr0"}}},
+			[]importSpec{{name: "kq", path: "example.test/unused/kq0"}, {name: "kr", path: "example.test/unused/kr0"}}, nil},
 		{"an unnamed value whose default name is the name a source file gives to a package no signature mentions", []addStep{{"", func() ktype { return kNamedIn(kpath("kf"), "kf", "Kq", nil, nil) }, ""}}, nil,
-			[]importSpec{{name: "kq", path: "example.test/unused/kq0"}}},
+			[]importSpec{{name: "kq", path: "example.test/unused/kq0"}}, nil},
+		// a rename made behind the back of an earlier variable lands on a name that is still free (D20)
+		{key: "a parameter written kaMoqParam, a parameter written ka, then a type of a package named ka", steps: []addStep{{"kaMoqParam", intF, ""}, {"ka", intF, ""}, {"x", leaf("ka"), ""}}, keep: []int{0, 2}},
+		// a written name does not hide a type of the destination package that the same method spells bare (D19)
+		{key: "a parameter written like a lower-case type of the destination package that a later parameter's type spells", steps: []addStep{{"node", intF, ""}, {"x", func() ktype { return kNamedIn(rwSrcPath, rwSrcName, "node", nil, nil) }, ""}}, bare: []string{"node"}},
 	}
 	if c.Tier == "thorough" {
 		// longer runs of one type, two numbered qualifiers at once, results and parameters mixed
@@ -330,7 +335,8 @@ func namesTables(c *Ctx, required []string, exact bool, withDefaults bool) {
 				steps []addStep
 				keep  []int
 				specs []importSpec
-			}{key, steps, nil, nil})
+				bare  []string
+			}{key, steps, nil, nil, nil})
 		}
 		more("five unnamed parameters of one type", addStep{"", strT, ""}, addStep{"", strT, ""}, addStep{"", strT, ""}, addStep{"", strT, ""}, addStep{"", strT, ""})
 		more("packages qualified s1 and s3 and four unnamed strings", addStep{"x", leaf("s1"), ""}, addStep{"y", leaf("s3"), ""}, addStep{"", strT, ""}, addStep{"", strT, ""}, addStep{"", strT, ""}, addStep{"", strT, ""})
@@ -343,6 +349,9 @@ func namesTables(c *Ctx, required []string, exact bool, withDefaults bool) {
 		}, "Out"})
 	}
 	for _, sc := range scenarios {
+		if !c.collisionRows && (len(sc.bare) > 0 || strings.HasPrefix(sc.key, "a parameter written kaMoqParam")) {
+			continue
+		}
 		w, err := newNameWorldSpecs(prog, "", sc.specs)
 		if err != nil {
 			und("G-ADDVAR/table", sc.key, err)
@@ -403,6 +412,17 @@ func namesTables(c *Ctx, required []string, exact bool, withDefaults bool) {
 			if types.Universe.Lookup(n) != nil {
 				shadow = n
 			}
+		}
+		hides := ""
+		for _, n := range all {
+			for _, b := range sc.bare {
+				if n == b {
+					hides = n
+				}
+			}
+		}
+		if len(sc.bare) > 0 {
+			run.Check("G-ADDVAR/bare-type", sc.key, pos, hides == "", fmt.Sprintf("%s: the variables are named %v — inside the generated method %q denotes the parameter, and the parameter list and the call record spell a type of that name without a qualifier (\"%s is not a type\")", sc.key, all, hides, hides))
 		}
 		kept := true
 		for _, i := range sc.keep {
